@@ -194,6 +194,8 @@ impl MemTable {
 			};
 
 			self.insert_into_memtable(&ikey, &val)?;
+			#[cfg(surrealkv_verif)]
+			crate::verif::yieldp::yield_point("mem.insert", current_seq_num, batch.count() as u64);
 		}
 
 		// Get the highest sequence number used from the batch
